@@ -92,7 +92,11 @@ Quiescent ==
           \A s \in subs : (Active(s) /\ T!Matches(s.f, t)) => Get(recv, <<s.c, last>>, 0) >= 1
   /\ UNCHANGED <<subs, pubs, recv, live, order>>
 
+\* C06 at the writer: in these scenarios every client acknowledges at once and sweeps precede the probe, so no packet
+\* identifier may still be held when everything is quiet
+Probe == Ev.op = "probe" /\ Len(Ev.held) = 0 /\ UNCHANGED <<subs, pubs, recv, live, order>>
 Other ==
+  /\ Ev.op # "probe"
   /\ ~(Ev.op = "cli.send" /\ Ev.kind \in {"SUBSCRIBE", "UNSUBSCRIBE", "PUBLISH", "DISCONNECT"} /\ "dropped" \notin DOMAIN Ev)
   /\ ~(Ev.op = "srv.write" /\ Ev.kind \in {"SUBACK", "UNSUBACK", "PUBACK", "PUBCOMP", "PUBLISH", "CONNACK"})
   /\ Ev.op \notin {"srv.close", "cli.close", "quiescent", "new", "stall", "process.died"}
@@ -103,7 +107,7 @@ Refused == Ev.op = "srv.write" /\ Ev.kind = "CONNACK" /\ Ev.code # 0 /\ UNCHANGE
 
 Step == /\ l <= Len(Trace) /\ l' = l + 1
         /\ \/ New \/ SendSubscribe \/ SubAck \/ SendUnsubscribe \/ UnsubAck \/ SendPublish \/ PubAck \/ Connected \/ Gone
-           \/ Deliver \/ Quiescent \/ Other \/ EmptyPublish \/ Refused
+           \/ Deliver \/ Quiescent \/ Other \/ EmptyPublish \/ Refused \/ Probe
 TSpec == TInit /\ [][Step]_vars
 HighWater == TLCSet(1, IF TLCGet(1) > l THEN TLCGet(1) ELSE l)
 Accepted == IF TLCGet(1) - 1 = Len(Trace) THEN PrintT("TRACE_ACCEPTED")
